@@ -29,6 +29,28 @@ pub struct WorkerArgs {
     pub trace_runs: bool,
 }
 
+/// Heartbeat: the index of the run about to be executed, so that the orchestrator's watchdog can
+/// name the run a hung worker was executing.
+pub struct Heartbeat {
+    f: Option<std::fs::File>,
+}
+
+impl Heartbeat {
+    pub fn new(a: &WorkerArgs) -> Heartbeat {
+        std::fs::create_dir_all(&a.out_dir).ok();
+        Heartbeat {
+            f: std::fs::File::create(format!("{}/hb_{}", a.out_dir, a.wid)).ok(),
+        }
+    }
+    pub fn beat(&mut self, idx: u64) {
+        use std::io::{Seek, SeekFrom};
+        if let Some(f) = self.f.as_mut() {
+            let _ = f.seek(SeekFrom::Start(0));
+            let _ = f.write_all(format!("{idx:<20}").as_bytes());
+        }
+    }
+}
+
 fn bump(m: &mut BTreeMap<String, u64>, k: &str) {
     *m.entry(k.to_string()).or_default() += 1;
 }
@@ -101,7 +123,9 @@ pub fn run_c17(a: &WorkerArgs) -> Out {
     let (mut runs, mut discarded, mut rejected, mut expensive) = (0u64, 0u64, 0u64, 0u64);
     let (mut steps, mut events, mut nontrivial) = (0u64, 0u64, 0u64);
     let mut i = a.wid;
+    let mut hb = Heartbeat::new(a);
     while runs + discarded < a.max_runs && t0.elapsed() < a.budget {
+        hb.beat(i);
         let (w, spec, st) = c17_case(a.seed, i, a.spurious);
         rejected += st.grammars_rejected;
         expensive += st.refs_too_expensive;
@@ -309,6 +333,7 @@ pub fn run_c12(a: &WorkerArgs) -> Out {
                 st.refused_but_equal += s.refused_but_equal;
                 st.limit_hit_at_last_call += s.limit_hit_at_last_call;
                 st.limit_error_without_refusal += s.limit_error_without_refusal;
+                st.large_limits += s.large_limits;
                 if s.exhaustive {
                     exhaustive_sweeps += 1;
                 } else {
@@ -327,8 +352,10 @@ pub fn run_c12(a: &WorkerArgs) -> Out {
 
     let mut i = a.wid;
     let mut n = 0u64;
+    let mut hb = Heartbeat::new(a);
     while n < a.max_runs && t0.elapsed() < a.budget {
         let idx = i;
+        hb.beat(idx);
         i += a.nw;
         n += 1;
         match c12_case(a.seed, idx, &small) {
@@ -347,7 +374,10 @@ pub fn run_c12(a: &WorkerArgs) -> Out {
                         st.refused_but_equal += s.refused_but_equal;
                         st.limit_hit_at_last_call += s.limit_hit_at_last_call;
                         st.limit_error_without_refusal += s.limit_error_without_refusal;
+                        st.large_limits += s.large_limits;
+                st.large_limits += s.large_limits;
                 st.limit_error_without_refusal += s.limit_error_without_refusal;
+                st.large_limits += s.large_limits;
                         if s.exhaustive {
                             exhaustive_sweeps += 1;
                         } else {
@@ -414,6 +444,7 @@ pub fn run_c12(a: &WorkerArgs) -> Out {
         "refusal_but_identical_result": st.refused_but_equal,
         "limit_equal_to_calls_needed": st.limit_hit_at_last_call,
         "limit_error_although_no_call_was_refused": st.limit_error_without_refusal,
+        "limits_far_beyond_calls_needed(2^16..usize::MAX)": st.large_limits,
         "classes": map_json(&classes), "backends": map_json(&backends), "discards": map_json(&discards),
         "cfg_probes": cfgp.to_json(),
         "violations": violations, "samples": samples,
@@ -494,8 +525,10 @@ pub fn run_c15(a: &WorkerArgs) -> Out {
 
     let mut i = a.wid;
     let mut n = 0u64;
+    let mut hb = Heartbeat::new(a);
     while n < a.max_runs && t0.elapsed() < a.budget {
         let idx = i;
+        hb.beat(idx);
         i += a.nw;
         n += 1;
         match c15_case(a.seed, idx, &small) {
